@@ -34,11 +34,23 @@ func BuildEndpointPolicyTree(
 		urlKey := strings.Trim(endpoint.URL, "./")
 		if existingEndpointPolicy, found := policiesByURL[urlKey]; found {
 			existingPolicy := *existingEndpointPolicy
-			existingPolicy[urltree.Method(endpoint.Method)] = EndpointPolicy{
+			method := urltree.Method(endpoint.Method)
+			policy := EndpointPolicy{
 				URL:       endpoint.URL,
 				Remedies:  endpoint.Remedies,
 				Diagnosis: endpoint.Diagnosis,
 			}
+			if previous, declared := existingPolicy[method]; declared {
+				// The same method and URL declared again: keep both declarations,
+				// their remedies and diagnoses run in the order they are written.
+				policy.Remedies = append(
+					append([]sharedConfig.Remedy{}, previous.Remedies...),
+					endpoint.Remedies...)
+				policy.Diagnosis = append(
+					append([]sharedConfig.Diagnosis{}, previous.Diagnosis...),
+					endpoint.Diagnosis...)
+			}
+			existingPolicy[method] = policy
 			endpointPolicy = &existingPolicy
 		} else {
 			endpointPolicy = &map[urltree.Method]EndpointPolicy{
